@@ -29,9 +29,11 @@ VARIABLES l,        \* next line of TraceLog
           susp,     \* number of open suspensions
           cnt,      \* [who -> open suspensions of that reader]
           objs,     \* [id -> record] contexts / timers of the real clock
-          timers    \* [tid -> record] armed base timers / base deadlines
+          timers,   \* [tid -> record] armed base timers / base deadlines
+          nonconf   \* lines on which the real code deviated from the model's
+                    \* re-arm loop without any C11 equation failing (layer N)
 
-tvars == <<l, verdict, thr, ms, now, uNow, susp, cnt, objs, timers>>
+tvars == <<l, verdict, thr, ms, now, uNow, susp, cnt, objs, timers, nonconf>>
 
 \* The equations are those of the reference model; its state variables are
 \* not used here (the trace carries its own ghost state).
@@ -54,7 +56,7 @@ NoRec == [id |-> 0, kind |-> "", done |-> FALSE, err |-> "none", unsusp |-> 0, r
 
 TInit ==
   /\ l = 1 /\ verdict = "ok" /\ thr = 1 /\ ms = 0 /\ now = 0 /\ uNow = 0
-  /\ susp = 0 /\ cnt = <<>> /\ objs = <<>> /\ timers = <<>>
+  /\ susp = 0 /\ cnt = <<>> /\ objs = <<>> /\ timers = <<>> /\ nonconf = 0
 
 \* Start of a new trace: a fresh clock.
 TReset ==
@@ -63,6 +65,7 @@ TReset ==
   /\ thr' = Line.thr /\ ms' = Line.ms
   /\ now' = 0 /\ uNow' = 0 /\ susp' = 0
   /\ cnt' = <<>> /\ objs' = <<>> /\ timers' = <<>>
+  /\ UNCHANGED nonconf
 
 \* The base clock advances; the driver never skips a due base timer.
 TTick ==
@@ -74,14 +77,14 @@ TTick ==
                      ELSE "ok"
        /\ now' = to
        /\ uNow' = IF susp = 0 /\ to > now THEN uNow + (to - now) ELSE uNow
-  /\ UNCHANGED <<thr, ms, susp, cnt, objs, timers>>
+  /\ UNCHANGED <<thr, ms, susp, cnt, objs, timers, nonconf>>
 
 TSuspend ==
   /\ IsEvent("suspend")
   /\ cnt' = Put(cnt, Line.who, Cnt(Line.who) + 1)
   /\ susp' = susp + 1
   /\ verdict' = "ok"
-  /\ UNCHANGED <<thr, ms, now, uNow, objs, timers>>
+  /\ UNCHANGED <<thr, ms, now, uNow, objs, timers, nonconf>>
 
 \* Resume never without Suspend (the real clock panics if the total is 0;
 \* resuming somebody else's suspension is as wrong).
@@ -91,7 +94,7 @@ TResume ==
        /\ verdict' = IF c = 0 THEN "C11:resume-without-suspend" ELSE "ok"
        /\ cnt' = Put(cnt, Line.who, IF c = 0 THEN 0 ELSE c - 1)
        /\ susp' = IF susp = 0 THEN 0 ELSE susp - 1
-  /\ UNCHANGED <<thr, ms, now, uNow, objs, timers>>
+  /\ UNCHANGED <<thr, ms, now, uNow, objs, timers, nonconf>>
 
 \* NewContextWithTimeout / NewTimer on the real clock.
 TNew ==
@@ -100,27 +103,29 @@ TNew ==
   /\ objs' = Put(objs, Line.id,
                  [kind |-> Line.kind, t |-> Line.d, start |-> now, startU |-> uNow,
                   st |-> "running", creq |-> FALSE, rec |-> NoRec])
-  /\ UNCHANGED <<thr, ms, now, uNow, susp, cnt, timers>>
+  /\ UNCHANGED <<thr, ms, now, uNow, susp, cnt, timers, nonconf>>
 
 UE(o) == uNow - o.startU
 WE(o) == now - o.start
 
 \* The real code asked the base clock for a timer / a context deadline.
 \* Layer N: a context's timer loop asks for exactly the remaining
-\* unsuspended budget (C11_RearmIsRemainingBudget of the model).
+\* unsuspended budget (C11_RearmIsRemainingBudget of the model) and for a
+\* base deadline of timeout + maximum.  A deviation is counted, not judged:
+\* only the observable equations (TObs) decide the property.
+ArmConforms ==
+  IF Line.owner \in DOMAIN objs /\ objs[Line.owner].kind = "ctx" /\ objs[Line.owner].st = "running"
+  THEN LET o == objs[Line.owner] IN
+         IF Line.kind = "deadline" THEN Line.d = o.t + ms
+         ELSE /\ Line.d = SC!Rearm(o.t, UE(o))
+              /\ (now > o.start => Line.d >= thr)
+  ELSE TRUE
+
 TArm ==
   /\ IsEvent("arm")
   /\ timers' = Put(timers, Line.tid, [due |-> now + Line.d, kind |-> Line.kind, owner |-> Line.owner])
-  /\ verdict' =
-       IF Line.tid \in DOMAIN timers THEN "NC:base-timer-id-reused"
-       ELSE IF Line.owner \in DOMAIN objs /\ objs[Line.owner].kind = "ctx" /\ objs[Line.owner].st = "running"
-            THEN LET o == objs[Line.owner] IN
-                   IF Line.kind = "deadline"
-                   THEN IF Line.d = o.t + ms THEN "ok" ELSE "NC:base-deadline-is-not-timeout-plus-maximum"
-                   ELSE IF Line.d # SC!Rearm(o.t, UE(o)) THEN "NC:rearm-is-not-remaining-budget"
-                   ELSE IF now > o.start /\ Line.d < thr THEN "NC:rearm-below-threshold"
-                   ELSE "ok"
-       ELSE "ok"
+  /\ verdict' = IF Line.tid \in DOMAIN timers THEN "NC:base-timer-id-reused" ELSE "ok"
+  /\ nonconf' = IF ArmConforms THEN nonconf ELSE nonconf + 1
   /\ UNCHANGED <<thr, ms, now, uNow, susp, cnt, objs>>
 
 \* The driver delivered a base timer / base deadline (never early).
@@ -130,14 +135,14 @@ TFire ==
                 ELSE IF timers[Line.tid].due > now THEN "NC:driver-fired-timer-early"
                 ELSE "ok"
   /\ timers' = Drop(timers, Line.tid)
-  /\ UNCHANGED <<thr, ms, now, uNow, susp, cnt, objs>>
+  /\ UNCHANGED <<thr, ms, now, uNow, susp, cnt, objs, nonconf>>
 
 \* The real code stopped a base timer / cancelled the base context.
 TStop ==
   /\ IsEvent("stop")
   /\ verdict' = "ok"
   /\ timers' = Drop(timers, Line.tid)
-  /\ UNCHANGED <<thr, ms, now, uNow, susp, cnt, objs>>
+  /\ UNCHANGED <<thr, ms, now, uNow, susp, cnt, objs, nonconf>>
 
 \* The command finished (CancelFunc / Timer.Stop) or its parent context was
 \* cancelled.
@@ -146,7 +151,7 @@ TCancel ==
   /\ verdict' = IF Line.id \in DOMAIN objs THEN "ok" ELSE "NC:cancel-of-unknown-object"
   /\ objs' = IF Line.id \in DOMAIN objs
              THEN [objs EXCEPT ![Line.id].creq = TRUE] ELSE objs
-  /\ UNCHANGED <<thr, ms, now, uNow, susp, cnt, timers>>
+  /\ UNCHANGED <<thr, ms, now, uNow, susp, cnt, timers, nonconf>>
 
 -----------------------------------------------------------------------------
 (* Judgement of one observed object.  o = what the trace knows about it,   *)
@@ -194,7 +199,7 @@ TObs ==
                      THEN [objs[id] EXCEPT !.st = "done",
                                            !.rec = rs[CHOOSE i \in 1 .. Len(rs) : rs[i].id = id /\ rs[i].done]]
                      ELSE objs[id]]
-  /\ UNCHANGED <<thr, ms, now, uNow, susp, cnt, timers>>
+  /\ UNCHANGED <<thr, ms, now, uNow, susp, cnt, timers, nonconf>>
 
 -----------------------------------------------------------------------------
 (* Storage operations through SuspendingBlobAccess /                       *)
@@ -204,7 +209,7 @@ TObs ==
 TOpBegin ==
   /\ IsEvent("opbegin")
   /\ verdict' = IF Cnt(Line.who) # 0 THEN "NC:operation-identity-reused" ELSE "ok"
-  /\ UNCHANGED <<thr, ms, now, uNow, susp, cnt, objs, timers>>
+  /\ UNCHANGED <<thr, ms, now, uNow, susp, cnt, objs, timers, nonconf>>
 
 \* The real code entered the storage backend (a call, or a read of the
 \* stream behind the returned buffer): this is stall time, the clock must
@@ -212,35 +217,35 @@ TOpBegin ==
 TOpBase ==
   /\ IsEvent("opbase")
   /\ verdict' = IF Cnt(Line.who) = 0 THEN "C11:storage-access-without-suspend" ELSE "ok"
-  /\ UNCHANGED <<thr, ms, now, uNow, susp, cnt, objs, timers>>
+  /\ UNCHANGED <<thr, ms, now, uNow, susp, cnt, objs, timers, nonconf>>
 
 TOpRelease ==
   /\ IsEvent("oprelease")
   /\ verdict' = "ok"
-  /\ UNCHANGED <<thr, ms, now, uNow, susp, cnt, objs, timers>>
+  /\ UNCHANGED <<thr, ms, now, uNow, susp, cnt, objs, timers, nonconf>>
 
 \* The operation is over (call returned; buffer consumed, failed or
 \* discarded): every Suspend has been matched by exactly one Resume.
 TOpEnd ==
   /\ IsEvent("opend")
   /\ verdict' = IF Cnt(Line.who) # 0 THEN "C11:resume-missing-after-storage-operation" ELSE "ok"
-  /\ UNCHANGED <<thr, ms, now, uNow, susp, cnt, objs, timers>>
+  /\ UNCHANGED <<thr, ms, now, uNow, susp, cnt, objs, timers, nonconf>>
 
 \* The real code panicked / left goroutines behind that never finish.
 TPanic ==
   /\ IsEvent("panic")
   /\ verdict' = "NC:panic"
-  /\ UNCHANGED <<thr, ms, now, uNow, susp, cnt, objs, timers>>
+  /\ UNCHANGED <<thr, ms, now, uNow, susp, cnt, objs, timers, nonconf>>
 
 TLeak ==
   /\ IsEvent("leak")
   /\ verdict' = "NC:goroutines-left-behind"
-  /\ UNCHANGED <<thr, ms, now, uNow, susp, cnt, objs, timers>>
+  /\ UNCHANGED <<thr, ms, now, uNow, susp, cnt, objs, timers, nonconf>>
 
 TEnd ==
   /\ IsEvent("end")
   /\ verdict' = "ok"
-  /\ UNCHANGED <<thr, ms, now, uNow, susp, cnt, objs, timers>>
+  /\ UNCHANGED <<thr, ms, now, uNow, susp, cnt, objs, timers, nonconf>>
 
 TNext == \/ TReset \/ TTick \/ TSuspend \/ TResume \/ TNew \/ TArm \/ TFire
          \/ TStop \/ TCancel \/ TObs \/ TOpBegin \/ TOpBase \/ TOpRelease
@@ -260,6 +265,8 @@ C11_RunningWithinBounds ==
     \A id \in DOMAIN objs :
       (objs[id].st = "running" /\ ~objs[id].creq) =>
         SC!WithinBounds(ms, objs[id].t, UE(objs[id]), WE(objs[id]))
+
+NonconfReport == (l <= Len(TraceLog)) \/ PrintT(<<"NONCONF", nonconf>>)
 
 \* All lines were consumed (infrastructure sanity).
 Accepted ==
